@@ -564,4 +564,170 @@ theorem mergeMulti_dup (oa : List (Str × Content)) (k : Str) (ca cb : Content) 
       · simp only [hs', Bool.false_eq_true, if_false]
         rw [ih hr]
 
+
+/-! ### Walk through prefix views is exact (sound, complete, each object once) -/
+
+/-- Every entry is keyed by a rendered key. -/
+def KeysRendered (objs : List (Str × Content)) : Prop :=
+  ∀ qc ∈ objs, ∃ kk : Key, AllProper kk ∧ qc.1 = renderKey kk
+
+theorem unmapAll_complete (p : Key) (hp : AllProper p) (objs out : List (Str × Content))
+    (hobjs : KeysRendered objs) (h : unmapAll (renderKey p) objs = .ok out)
+    (kk : Key) (hkk : AllProper kk) (c : Content) (hin : (renderKey (p ++ kk), c) ∈ objs) :
+    (renderKey kk, c) ∈ out := by
+  induction objs generalizing out with
+  | nil => cases hin
+  | cons o rest ih =>
+    obtain ⟨q, c0⟩ := o
+    have hrest : KeysRendered rest := fun qc hqc => hobjs qc (List.mem_cons_of_mem _ hqc)
+    obtain ⟨k0, hk0, hq0⟩ := hobjs (q, c0) (by simp)
+    simp only at hq0
+    unfold unmapAll at h
+    unfold unmapPrefix at h
+    by_cases hecp : equalsOrContainsPath (renderKey p) q = true
+    · have hpre : p <+: k0 := (ecp_keys hp hk0).mp (by rw [← hq0]; exact hecp)
+      obtain ⟨r, hr⟩ := hpre
+      have hrp : AllProper r := by rw [← hr] at hk0; exact (allProper_append.mp hk0).2
+      have hrel : rel (renderKey p) q = some (renderKey r) := by rw [hq0, ← hr]; exact rel_keys hp hrp
+      simp only [hecp, Bool.not_true, Bool.false_eq_true, if_false, hrel] at h
+      cases hu : unmapAll (renderKey p) rest with
+      | error e => rw [hu] at h; cases h
+      | ok out' =>
+        rw [hu] at h
+        injection h with h; subst h
+        rcases List.mem_cons.mp hin with e | hm
+        · injection e with e1 e2
+          have : p ++ kk = k0 := renderKey_inj (allProper_append.mpr ⟨hp, hkk⟩) hk0 (by rw [e1, hq0])
+          have : kk = r := by rw [← hr] at this; exact List.append_cancel_left this
+          subst this; subst e2
+          exact List.mem_cons_self
+        · exact List.mem_cons_of_mem _ (ih out' hrest hu hm)
+    · have hecp' : equalsOrContainsPath (renderKey p) q = false := by simpa using hecp
+      simp only [hecp', Bool.not_false, if_true] at h
+      rcases List.mem_cons.mp hin with e | hm
+      · exfalso
+        injection e with e1 e2
+        have : equalsOrContainsPath (renderKey p) q = true := by
+          rw [← e1]; exact (ecp_keys hp (allProper_append.mpr ⟨hp, hkk⟩)).mpr (List.prefix_append p kk)
+        rw [hecp'] at this; cases this
+      · exact ih out hrest h hm
+
+theorem unmapAll_nodup (p : Key) (hp : AllProper p) (objs out : List (Str × Content))
+    (hobjs : KeysRendered objs) (hn : NodupKeys objs) (h : unmapAll (renderKey p) objs = .ok out) :
+    NodupKeys out ∧ KeysRendered out := by
+  induction objs generalizing out with
+  | nil => simp [unmapAll] at h; subst h; exact ⟨by simp [NodupKeys], fun qc hqc => by cases hqc⟩
+  | cons o rest ih =>
+    obtain ⟨q, c0⟩ := o
+    have hrest : KeysRendered rest := fun qc hqc => hobjs qc (List.mem_cons_of_mem _ hqc)
+    have hnrest : NodupKeys rest := by
+      unfold NodupKeys at hn ⊢; simp only [List.map, List.nodup_cons] at hn; exact hn.2
+    have hq_notin : q ∉ rest.map (·.1) := by
+      unfold NodupKeys at hn; simp only [List.map, List.nodup_cons] at hn; exact hn.1
+    obtain ⟨k0, hk0, hq0⟩ := hobjs (q, c0) (by simp)
+    simp only at hq0
+    unfold unmapAll at h
+    unfold unmapPrefix at h
+    by_cases hecp : equalsOrContainsPath (renderKey p) q = true
+    · have hpre : p <+: k0 := (ecp_keys hp hk0).mp (by rw [← hq0]; exact hecp)
+      obtain ⟨r, hr⟩ := hpre
+      have hrp : AllProper r := by rw [← hr] at hk0; exact (allProper_append.mp hk0).2
+      have hrel : rel (renderKey p) q = some (renderKey r) := by rw [hq0, ← hr]; exact rel_keys hp hrp
+      simp only [hecp, Bool.not_true, Bool.false_eq_true, if_false, hrel] at h
+      cases hu : unmapAll (renderKey p) rest with
+      | error e => rw [hu] at h; cases h
+      | ok out' =>
+        rw [hu] at h
+        injection h with h; subst h
+        obtain ⟨ihn, ihr⟩ := ih out' hrest hnrest hu
+        refine ⟨?_, ?_⟩
+        · unfold NodupKeys
+          simp only [List.map, List.nodup_cons]
+          refine ⟨?_, ihn⟩
+          intro hmem
+          obtain ⟨qc, hqc, he⟩ := List.mem_map.mp hmem
+          obtain ⟨kk, hkkp, hqk, hin⟩ := unmapAll_sound p hp rest out' hrest hu qc hqc
+          have : kk = r := renderKey_inj hkkp hrp (by rw [← hqk, he])
+          subst this
+          apply hq_notin
+          rw [hq0, ← hr]
+          exact List.mem_map.mpr ⟨_, hin, rfl⟩
+        · intro qc hqc
+          rcases List.mem_cons.mp hqc with e | hm
+          · subst e; exact ⟨r, hrp, rfl⟩
+          · exact ihr qc hm
+    · have hecp' : equalsOrContainsPath (renderKey p) q = false := by simpa using hecp
+      simp only [hecp', Bool.not_false, if_true] at h
+      exact ih out hrest hnrest h
+
+/-- A prefix-only view. -/
+def PreOnly : List KLayer → Prop
+  | [] => True
+  | .pre _ :: ls => PreOnly ls
+  | .filt _ :: _ => False
+
+/-- Walk through any nesting of prefix views returns EXACTLY the objects stored under
+    (view root ++ requested prefix), each once, with view-relative paths. -/
+theorem vWalk_pre_exact (ls : List KLayer) (hls : KLayersOK ls) (hpre : PreOnly ls)
+    (m : Mem) (hv : KeysValid m) (hn : NodupKeys m) (pfx : Str) (objs : List (Str × Content))
+    (h : vWalk (ls.map KLayer.toLayer) m pfx = .ok objs) :
+    ∃ kq : Key, AllProper kq ∧ normalizeAndValidate pfx = .ok (renderKey kq) ∧
+      NodupKeys objs ∧ KeysRendered objs ∧
+      ∀ (kk : Key) (c : Content), AllProper kk →
+        ((renderKey kk, c) ∈ objs ↔ (kq <+: kk ∧ Mem.find m (renderKey (fullKey ls ++ kk)) = some c)) := by
+  induction ls generalizing pfx objs with
+  | nil =>
+    simp only [List.map, vWalk] at h
+    obtain ⟨kq, hkq, hnv, hnd, hall⟩ := memWalk_exact m hv hn pfx objs h
+    refine ⟨kq, hkq, hnv, hnd, ?_, by simpa [fullKey] using hall⟩
+    intro qc hqc
+    unfold memWalk validatePrefix at h
+    rw [hnv] at h
+    injection h with h
+    rw [← h] at hqc
+    obtain ⟨kk, hkk, _, hk⟩ := hv qc (List.mem_filter.mp hqc).1
+    exact ⟨kk, hkk, hk⟩
+  | cons l ls ih =>
+    cases l with
+    | filt f => exact absurd hpre (by simp [PreOnly])
+    | pre k =>
+      simp only [List.map, KLayer.toLayer, vWalk] at h
+      cases hnv : normalizeAndValidate pfx with
+      | error e => rw [hnv] at h; cases h
+      | ok q =>
+        rw [hnv] at h
+        simp only at h
+        obtain ⟨kq, hkq, hq⟩ := validate_sound pfx q hnv
+        rw [hq, join_keys hls.1 hkq] at h
+        cases hw : vWalk (ls.map KLayer.toLayer) m (renderKey (k ++ kq)) with
+        | error e => rw [hw] at h; cases h
+        | ok inner =>
+          rw [hw] at h
+          simp only at h
+          obtain ⟨kq', hkq', hnv', hnd', hrend', hall'⟩ := ih hls.2 hpre _ inner hw
+          have hkk : AllProper (k ++ kq) := allProper_append.mpr ⟨hls.1, hkq⟩
+          rw [validate_renderKey hkk] at hnv'
+          have hkq'eq : kq' = k ++ kq := by
+            injection hnv' with e
+            exact (renderKey_inj hkk hkq' e).symm
+          subst hkq'eq
+          obtain ⟨hndo, hrendo⟩ := unmapAll_nodup k hls.1 inner objs hrend' hnd' h
+          refine ⟨kq, hkq, by rw [hq], hndo, hrendo, ?_⟩
+          intro kk c hkkp
+          have hkkk : AllProper (k ++ kk) := allProper_append.mpr ⟨hls.1, hkkp⟩
+          constructor
+          · intro hin
+            obtain ⟨kk2, hkk2, hq2, hin2⟩ := unmapAll_sound k hls.1 inner objs hrend' h (renderKey kk, c) hin
+            simp only at hq2 hin2
+            have : kk2 = kk := (renderKey_inj hkkp hkk2 hq2).symm
+            subst this
+            have := (hall' (k ++ kk2) c hkkk).mp hin2
+            refine ⟨(List.prefix_append_right_inj k).mp this.1, ?_⟩
+            simpa [fullKey, List.append_assoc] using this.2
+          · intro ⟨hpref, hfind⟩
+            have hin2 : (renderKey (k ++ kk), c) ∈ inner :=
+              (hall' (k ++ kk) c hkkk).mpr ⟨(List.prefix_append_right_inj k).mpr hpref, by
+                simpa [fullKey, List.append_assoc] using hfind⟩
+            exact unmapAll_complete k hls.1 inner objs hrend' h kk hkkp c hin2
+
 end BufModel.Bucket
